@@ -1,6 +1,7 @@
 import Lean.Data.Json
 import PegVerif.Exec.Front
 import PegVerif.Model.Compile
+import PegVerif.Model.Optimise
 import PegVerif.Model.Machine
 import PegVerif.Model.Sem
 /-
@@ -36,9 +37,18 @@ def emitOne (line : String) : String :=
       match L.dup with
       | some n => pure (Json.mkObj [("id", id), ("compileError", s!"rule '{n}' defined more than once")])
       | none =>
-        let P := compileAll o L.G
-        pure (Json.mkObj [("id", id), ("rules", programJson P),
-          ("ruleNames", Json.arr (L.G.rules.map (fun r => Json.str r.name)).toArray)])
+        match (if o.switch then optimise L.G else .ok L.G) with
+        | .error e => pure (Json.mkObj [("id", id), ("optimiseError", e)])
+        | .ok G' =>
+          let P := compileAll o G'
+          -- a case with no key is printed by the generator as `case '<nil>':`, which is not Go
+          let nilCase := P.any (fun r => match r.code with
+            | some c => c.any (fun i => match i with
+              | .switchOn _ keys => keys.any (fun k => k.isEmpty)
+              | _ => false)
+            | none => false)
+          pure (Json.mkObj [("id", id), ("rules", programJson P), ("nilCase", nilCase),
+            ("ruleNames", Json.arr (L.G.rules.map (fun r => Json.str r.name)).toArray)])
     match res with
     | .ok v => v.compress
     | .error e => (Json.mkObj [("id", id), ("error", e)]).compress
